@@ -60,7 +60,7 @@ DIMENSIONS = {
     'pk_word': ['pk', 'primary key'],
     'legacy_constraints': [False, True],       # `id int pk unique` instead of settings
     'null_word': [False, True],                # write an explicit `null` for a nullable column
-    'note_pad': ['tight', 'padded'],           # multi-line text: blank lines around, extra indentation
+    'note_pad': ['tight', 'padded', 'tabbed'],           # multi-line text: blank lines around, extra indentation
     'space': [' ', '  ', '\t'],
     'comment_style': ['line', 'block'],
     'comment_place': ['above', 'trailing', 'both'],                # separator between tokens on a line
@@ -137,10 +137,11 @@ class Printer:
         if style == 'double':
             return '"%s"' % esc(text, '"')
         body = esc(text, "'")
-        if pad and self.f.pick('note_pad') == 'padded' and text.strip():
-            extra = '      '
+        if pad and self.f.pick('note_pad') in ('padded', 'tabbed') and text.strip():
+            # (tabbed: an author who indents with tab characters, also inside a multi-line text)
+            extra, last = ('      ', '   ') if self.f.pick('note_pad') == 'padded' else ('\t\t', '\t')
             body = '\n'.join(extra + ln if ln.strip() else ln for ln in body.split('\n'))
-            body = '\n' + body + '\n' + '   '
+            body = '\n' + body + '\n' + last
         return "'''%s'''" % body
 
     def sp(self) -> str:
@@ -152,12 +153,15 @@ class Printer:
         items = self.f.shuffle(items)
         assert not any(i.startswith('\x00') for i in items)
         layout = self.f.pick('settings_layout')
+        # \x03 marks a place INSIDE a line where the grammar admits a comment (C14 inertness, noise kind 'mid'): every
+        # settings grammar wraps each setting in optional comments/newlines
+        M = '\x03'
         if layout == 'oneline':
-            return '[' + ', '.join(items) + ']'
+            return '[' + M + (M + ', ' + M).join(items) + M + ']'
         pad = self.ind * (depth + 1)
         if layout == 'multiline':
-            return '[' + self.eol + (',' + self.eol).join(pad + i for i in items) + self.eol + self.ind * depth + ']'
-        return '[ ' + (' ,' + self.eol + pad).join(items) + ' ]'
+            return '[' + self.eol + (M + ',' + self.eol).join(pad + i for i in items) + self.eol + self.ind * depth + ']'
+        return '[ ' + M + (' ' + M + ',' + self.eol + pad).join(items) + ' ' + M + ']'
 
     # ---- comments (C14) ---------------------------------------------------------------
     def comment_above(self, text: str, depth: int) -> List[str]:
@@ -195,13 +199,13 @@ class Printer:
         return self.comment_above(comment, depth) + lines
 
     def note_setting(self, text: str) -> str:
-        return self.kw('Note') + ':' + self.sp() + self.string(text, pad=True)
+        return self.kw('Note') + ':' + self.sp() + '\x03' + self.string(text, pad=True)
 
     def body_note(self, text: str, depth: int) -> List[str]:
         pad = self.ind * depth
         if self.f.pick('note_place') == 'body_block':
             brace = self.f.pick('brace')
-            head = pad + self.kw('Note') + (' {' if brace == 'same' else '')
+            head = pad + self.kw('Note') + (' \x03{' if brace == 'same' else '')
             lines = [head] if brace == 'same' else [head, pad + '{']
             lines.append(self.ind * (depth + 1) + self.string(text, pad=True))
             lines.append(pad + '}')
@@ -264,7 +268,7 @@ class Printer:
         if c['autoinc']:
             items.append(self.kw('increment'))
         if c['default']['k'] != 'none':
-            items.append(self.kw('default') + ':' + self.sp() + self.default_text(c['default']))
+            items.append(self.kw('default') + ':' + self.sp() + '\x03' + self.default_text(c['default']))
         if unique:
             items.append(self.kw('unique'))
         if c['notnull']:
@@ -278,7 +282,7 @@ class Printer:
         line = pad + self.sp().join(parts)
         st = self.settings(items, depth)
         if st:
-            line += ' ' + st
+            line += ' \x03' + st
         return self.attach([line], c.get('comment', ''), depth, can_trail=True, can_above=False)
 
     def index(self, x: Dict[str, Any], depth: int) -> List[str]:
@@ -300,11 +304,11 @@ class Printer:
         if x['note']:
             items.append(self.note_setting(x['note']))
         st = self.settings(items, depth)
-        return self.attach([pad + head + (' ' + st if st else '')], x.get('comment', ''), depth, can_trail=True)
+        return self.attach([pad + head + (' \x03' + st if st else '')], x.get('comment', ''), depth, can_trail=True)
 
     def open_brace(self, head: str, depth: int) -> List[str]:
         if self.f.pick('brace') == 'same':
-            return [head + ' {']
+            return [head + ' \x03{']
         return [head, self.ind * depth + '{']
 
     def table(self, t: Dict[str, Any]) -> List[str]:
@@ -357,7 +361,7 @@ class Printer:
         for it in e['items']:
             ln = self.ind + self.ident(it['name'])
             if it['note']:
-                ln += ' ' + self.settings([self.note_setting(it['note'])], 1)
+                ln += ' \x03' + self.settings([self.note_setting(it['note'])], 1)
             lines += self.attach([ln], it.get('comment', ''), 1, can_trail=True)
         lines.append('}')
         return self.attach(lines, e.get('comment', ''), 0, can_trail=False)
@@ -440,10 +444,16 @@ class Printer:
                 parts = text.split('\n')
                 cont = '\x02' if text.startswith('/*') else ''
                 out[pos:pos] = [parts[0]] + [cont + ln for ln in parts[1:]]
+            elif kind == 'mid':
+                # a block comment at one of the marked places inside line `pos` (the k-th mark, k from the text's length)
+                if pos < len(out) and '\x03' in out[pos] and text.startswith('/*') and '\n' not in text:
+                    marks = [i for i, ch in enumerate(out[pos]) if ch == '\x03']
+                    k = marks[(len(text) + pos) % len(marks)]
+                    out[pos] = out[pos][:k] + ' ' + text + ' ' + out[pos][k + 1:]      # (every marked place takes ONE comment: some slots admit no more)
             elif pos < len(out) and out[pos].strip() and not out[pos].endswith('\x01') and not out[pos].startswith('\x02') \
                     and not out[pos].lstrip('\x02').lstrip().startswith(('//', '/*')) and not out[pos].endswith('*/'):
                 out[pos] += ' ' + (text if '\n' not in text else text.split('\n')[0] + (' */' if text.startswith('/*') else '')) + '\x01'
-        out = [ln.replace('\x01', '').replace('\x02', '') for ln in out]
+        out = [ln.replace('\x01', '').replace('\x02', '').replace('\x03', '') for ln in out]
         text = self.eol.join(out)
         if self.f.pick('final_nl'):
             text += self.eol
